@@ -48,6 +48,16 @@ def _is_descendant(pid, root):
     return False
 
 
+def _limit_memory():
+    """address-space cap inherited by every cbmc child: a runaway obligation ends as 'undecided', not as a host OOM"""
+    import resource
+    cap = (RSS_CAP_KB + 4 * 1024 * 1024) * 1024
+    try:
+        resource.setrlimit(resource.RLIMIT_AS, (cap, cap))
+    except (ValueError, OSError):
+        pass
+
+
 class Watchdog(threading.Thread):
     def __init__(self, root_pid):
         super().__init__(daemon=True)
@@ -79,6 +89,7 @@ def run(scratch, obligations, extra_flags=(), capture_playback=False):
     cmd = ["cargo", "kani", "-Z", "function-contracts", "-Z", "stubbing", "-Z", "unstable-options",
            "--harness-timeout", "%ds" % timeout,
            "--target-dir", scratch.target, "--output-format=terse", "--output-into-files", "--exact",
+           "--no-assertion-reach-checks",
            "-j", str(min(JOBS, len(obligations)))]
     cmd += list(extra_flags)
     for o in obligations:
@@ -90,7 +101,8 @@ def run(scratch, obligations, extra_flags=(), capture_playback=False):
     env.pop("CARGO_TARGET_DIR", None)
     log("[kani] " + " ".join(cmd[:12]) + " ... (%d harnesses)" % len(obligations))
     t0 = time.time()
-    proc = subprocess.Popen(cmd, cwd=crate, env=env, stdout=subprocess.PIPE, stderr=subprocess.STDOUT, text=True)
+    proc = subprocess.Popen(cmd, cwd=crate, env=env, stdout=subprocess.PIPE, stderr=subprocess.STDOUT, text=True,
+                            preexec_fn=_limit_memory)
     wd = Watchdog(proc.pid)
     wd.start()
     try:
@@ -191,7 +203,7 @@ def playback(scratch, obligation):
         env.pop(k, None)
     try:
         out = subprocess.run(cmd, cwd=crate, env=env, capture_output=True, text=True,
-                             timeout=obligation["timeout"] + 600).stdout
+                             timeout=obligation["timeout"] + 600, preexec_fn=_limit_memory).stdout
     except subprocess.TimeoutExpired:
         return None, []
     m = re.search(r"```\n?(.*?)```", out, re.S)
